@@ -298,6 +298,11 @@ class SQLTaint:
         if isinstance(e, ast.Constant) and isinstance(e.value, str):
             return e.value
         if isinstance(e, ast.Name):
+            # text added to the name after it was bound (sql += ' WHERE ' + condition) makes it something else than the constant
+            for n in self.prog.own_nodes(self.f):
+                if isinstance(n, ast.AugAssign) and isinstance(n.target, ast.Name) and n.target.id == e.id \
+                        and n.lineno <= getattr(use, 'lineno', 10 ** 9) and not isinstance(n.value, ast.Constant):
+                    return None
             defs = self.reaching(e.id, use)
             vals = {d.value.value for d in defs if isinstance(d.value, ast.Constant) and isinstance(d.value.value, str)}
             if len(vals) == 1 and len(defs) == 1:
